@@ -76,3 +76,8 @@ package phase3
 //@ func wmedianProcessor.setPos
 //@   requires p != nil && n != nil
 //@   ensures has(p.positions, n) && p.positions[n] == pos && n.LayerPos == pos
+
+// breakEdge puts the helper node into the band below the edge's source: that band has to exist
+//@ func breakEdge
+//@   requires g != nil && e != nil && e.From != nil && e.To != nil
+//@   requires 0 <= e.From.Layer + 1 && e.From.Layer + 1 < len(g.Layers) && g.Layers[e.From.Layer + 1] != nil
